@@ -1,4 +1,18 @@
+/-
+  Pulsar.Proofs.Encode — umbrella for the encoder proofs (C02/C04/C05 helper lemmas):
+  EncodeScalar (keys, scalars) · EncodeSort (insertion sorts) · EncodeField (field level) ·
+  EncodeOrder (buffer + field order) · EncodeMsg (message/tree level) · EncodeTop (entry points) ·
+  EncodeKeyOrder (map-key order) · EncodeRep (option/representation independence) ·
+  EncodeExample (concrete schema and values for the non-vacuity examples).
+-/
 import Pulsar.Typing
 import Pulsar.Proofs.Runtime
-namespace Pulsar
-end Pulsar
+import Pulsar.Proofs.EncodeScalar
+import Pulsar.Proofs.EncodeSort
+import Pulsar.Proofs.EncodeField
+import Pulsar.Proofs.EncodeOrder
+import Pulsar.Proofs.EncodeMsg
+import Pulsar.Proofs.EncodeTop
+import Pulsar.Proofs.EncodeKeyOrder
+import Pulsar.Proofs.EncodeRep
+import Pulsar.Proofs.EncodeExample
